@@ -67,6 +67,9 @@ Inductive edit : Type :=
 | EBranchPopChild (p : nat)
 | EBranchDupChild (p : nat)
 | EBranchPush (p : nat) (k : key)        (* branch p: keys.push(k); children.push(last child) *)
+| EBranchPushLeaf (p : nat) (ks : list key) (vs : list V)
+    (* branch p, whose last child is a leaf l: a new leaf (ks, vs) is allocated and linked in
+       after l; keys.push(first key of ks); children.push(Leaf(new)) *)
 | EBranchRef (p i : nat) (id : N)        (* branch p: children[i] := same kind, raw id *)
 | ERoot (leafkind : bool) (id : N)       (* root := Leaf(id) | Branch(id) *)
 | ELeafNext (p : nat) (t : target)       (* set_leaf_next *)
@@ -111,6 +114,31 @@ Definition apply_edit (h : heap) (e : edit) : heap :=
   | EBranchPush p k =>
       on_branch h p (fun b => mkBranch (bcap b) (bkeys b ++ [k])
                                 (bkids b ++ match last_opt (bkids b) with Some c => [c] | None => [] end))
+  | EBranchPushLeaf p ks vs =>
+      match branch_at h p with
+      | Some bid =>
+          match get_branch h bid with
+          | Some b =>
+              match last_opt (bkids b), ks with
+              | Some (RLeaf lid), k :: _ =>
+                  match get_leaf h lid with
+                  | Some l =>
+                      match allocate (hleaves h) (mkLeaf (hcap h) ks vs (lnext l)) with
+                      | Ok (a, nid) =>
+                          let h1 := mkHeap (hcap h) (hroot h) a (hbranches h) in
+                          let h2 := upd_leaf h1 lid (fun l' => mkLeaf (lcap l') (lkeys l') (lvals l') nid) in
+                          upd_branch h2 bid
+                            (fun b' => mkBranch (bcap b') (bkeys b' ++ [k]) (bkids b' ++ [RLeaf nid]))
+                      | _ => h
+                      end
+                  | None => h
+                  end
+              | _, _ => h
+              end
+          | None => h
+          end
+      | None => h
+      end
   | EBranchRef p i id =>
       on_branch h p (fun b => match nth_error (bkids b) i with
                               | Some c => mkBranch (bcap b) (bkeys b) (set_nth i (same_kind c id) (bkids b))
